@@ -477,8 +477,20 @@ func buildAssignments(files []parsedFile, cfg *Config, preserved *preservationSe
 	minToOrig := make(map[string]string, len(records))
 	origToMin := make(map[string][]string)
 
-	for i, record := range records {
-		newName := fmt.Sprintf("x%d", i+1)
+	// A generated name must not collide with a name the program keeps: a
+	// top-level set name, an export, an exclusion, a preserved parameter or an
+	// unresolved reference spelled x<N> would otherwise be captured by (or
+	// capture) a renamed symbol.  Skip every candidate that occurs as a symbol
+	// anywhere in the session's input.
+	used := usedSymbolNames(files)
+	next := 0
+	for _, record := range records {
+		next++
+		newName := fmt.Sprintf("x%d", next)
+		for used[newName] {
+			next++
+			newName = fmt.Sprintf("x%d", next)
+		}
 		assignments[record.sym] = newName
 		assignmentKeys[symbolLookupKey(record.sym)] = newName
 
@@ -506,6 +518,33 @@ func buildAssignments(files []parsedFile, cfg *Config, preserved *preservationSe
 		MinifiedToOriginal: minToOrig,
 		OriginalToMinified: origToMin,
 	}
+}
+
+// usedSymbolNames returns every symbol spelling that occurs in the parsed
+// input, quoted or not, with the package qualifier stripped as well.
+func usedSymbolNames(files []parsedFile) map[string]bool {
+	used := make(map[string]bool)
+	var walk func(node *lisp.LVal)
+	walk = func(node *lisp.LVal) {
+		if node == nil {
+			return
+		}
+		if node.Type == lisp.LSymbol {
+			used[node.Str] = true
+			if _, name, ok := splitQualifiedSymbol(node.Str); ok {
+				used[name] = true
+			}
+		}
+		for _, child := range node.Cells {
+			walk(child)
+		}
+	}
+	for _, file := range files {
+		for _, expr := range file.exprs {
+			walk(expr)
+		}
+	}
+	return used
 }
 
 func applyAssignments(file *parsedFile, assignments map[*analysis.Symbol]string, assignmentKeys map[string]string, cfg *Config) {
